@@ -318,15 +318,6 @@ def decodeBlockT (signed : Bool) (block : Nat) : Option (List (List Nat)) := do
 
 /-! ### the six decoders of `bc.rs` -/
 
-/-- `two_powi(exp as i8 - bias)` (util.rs:56): the `i8` subtraction, the `debug_assert!`, the `i32` addition and the
-`u32` shift by 23 -/
-def twoPowiT (exp : Nat) (bias : Int) : Option Unit := do
-  let e ← ckI8 ((exp : Int) - bias)
-  dbgP (-126 ≤ e)
-  let s ← ckI32 (e + 127)
-  let _ ← shl 32 U32 s.toNat 23
-  pure ()
-
 /-- the two `debug_assert!`s of `bc6h_uf16::{n8, n16, f32}` -/
 def uf16AssertT (x : Nat) : Option Unit := do
   dbgP (x &&& 0x8000 = 0)
